@@ -58,6 +58,33 @@ def _retention_dispatcher(kind: str, validator: str, flavour: str):
                 assert isinstance(ctx, Ctx)
                 return body(a, fail)
         d.add(meth, 'meth', context='ctx')
+    elif flavour == 'view-noctx':
+        # a class based view registered WITHOUT a context: one instance per request, never retained, never shared
+        if is_async:
+            class PlainView(pjrpc.server.ViewMixin):
+                def __init__(self):
+                    super().__init__()
+                    self.seen = []
+                    VIEW_REFS.append(weakref.ref(self))
+
+                @v.validate(**vargs)
+                async def meth(self, a: int, fail: str = ''):
+                    self.seen.append(a)
+                    assert self.seen == [a], 'view instance shared between requests'
+                    return body(a, fail)
+        else:
+            class PlainView(pjrpc.server.ViewMixin):  # type: ignore[no-redef]
+                def __init__(self):
+                    super().__init__()
+                    self.seen = []
+                    VIEW_REFS.append(weakref.ref(self))
+
+                @v.validate(**vargs)
+                def meth(self, a: int, fail: str = ''):
+                    self.seen.append(a)
+                    assert self.seen == [a], 'view instance shared between requests'
+                    return body(a, fail)
+        d.registry.view(PlainView)
     else:
         if is_async:
             class View(pjrpc.server.ViewMixin):
@@ -82,6 +109,23 @@ def _retention_dispatcher(kind: str, validator: str, flavour: str):
                     assert isinstance(self.context, Ctx)
                     return body(a, fail)
         d.registry.view(View, context='ctx')
+    # a context-only method (no client parameters) and a context-free method without parameters
+    if is_async:
+        async def ping(ctx):
+            assert isinstance(ctx, Ctx)
+            return 'pong'
+
+        async def noctx():
+            return 'plain'
+    else:
+        def ping(ctx):
+            assert isinstance(ctx, Ctx)
+            return 'pong'
+
+        def noctx():
+            return 'plain'
+    d.add(ping, 'ping', context='ctx')
+    d.add(noctx, 'noctx')
     return d
 
 
@@ -97,6 +141,9 @@ RETENTION_REQUESTS = {
     'rejected': {'jsonrpc': '1.0', 'id': 7, 'method': 'meth'},
     'batch': [{'jsonrpc': '2.0', 'id': 8, 'method': 'meth', 'params': [1]}, {'jsonrpc': '2.0', 'method': 'meth', 'params': {'a': 1, 'fail': 'exc'}}],
     'not-json': None,
+    'ping-no-params': {'jsonrpc': '2.0', 'id': 9, 'method': 'ping'},
+    'ping-empty-list': {'jsonrpc': '2.0', 'id': 10, 'method': 'ping', 'params': []},
+    'noctx': {'jsonrpc': '2.0', 'id': 11, 'method': 'noctx'},
 }
 
 
@@ -110,7 +157,7 @@ class C13(Check):
         "cases: (a) histories of 0..12 (quick) / 0..30 (thorough) generated request documents (C01-C04 corpus: valid, failing, batch, "
         "rejected, non-JSON) served by one dispatcher, followed by a probe request whose response document and codes are compared with the "
         "probe served by a fresh dispatcher built from the same spec - also for same-named functions with different annotations that share one PydanticValidator instance; (b) retention: N in {1, 10, 1000} dispatches, a fresh weak-"
-        "referenceable context object each, for function methods and class based view methods x validator {base, jsonschema, pydantic} x "
+        "referenceable context object each, for function methods, class based view methods with and without a constructor context, a context-only method called without params and a context-free method x validator {base, jsonschema, pydantic} x "
         "sync / async x request kinds (ok, notification, raises, does not bind / validate, unknown, rejected, batch, non-JSON): after gc no "
         "context object and no view instance is alive; (c) 2..16 threads dispatching rotated corpora through one shared dispatcher with "
         "sys.setswitchinterval(1e-6): every response equals the single-threaded response. non-trivial = history with >= 1 failing and >= 1 "
@@ -122,7 +169,7 @@ class C13(Check):
         "thread schedules are sampled by the OS, not controlled: part (c) can expose a race, it cannot exclude one",
     ]
     trusted_base = ['python gc / weakref', 'pbt/refserver.py (class labels only)']
-    required_classes = ['history/nontrivial', 'retention/func', 'retention/view', 'retention/base', 'retention/jsonschema', 'retention/pydantic',
+    required_classes = ['history/nontrivial', 'retention/func', 'retention/view', 'retention/view-noctx', 'retention/base', 'retention/jsonschema', 'retention/pydantic',
                         'retention/n=1000', 'threads/run', 'vhistory/two-methods-before-probe']
 
     # ---- generation -------------------------------------------------------------------------------------
@@ -144,7 +191,7 @@ class C13(Check):
 
         retention = st.builds(
             lambda d, v, f, n, r: {'kind': 'retention', 'dispatcher': d, 'validator': v, 'flavour': f, 'n': n, 'requests': r},
-            st.sampled_from(['sync', 'async']), st.sampled_from(['base', 'jsonschema', 'pydantic']), st.sampled_from(['func', 'view']),
+            st.sampled_from(['sync', 'async']), st.sampled_from(['base', 'jsonschema', 'pydantic']), st.sampled_from(['func', 'view', 'view-noctx']),
             st.sampled_from([1, 10, 10, 30]), st.lists(st.sampled_from(sorted(RETENTION_REQUESTS)), min_size=1, max_size=4),
         )
         vcall = st.tuples(st.sampled_from(['users.get', 'posts.get', 'users.get_many']), st.sampled_from([[1], ['1'], ['x'], [[1, 2]], [None], [], [1.5], [{'a': 1}]]))
@@ -163,9 +210,9 @@ class C13(Check):
         for n in ns:
             for d in ('sync', 'async'):
                 for v in ('base', 'jsonschema', 'pydantic'):
-                    for f in ('func', 'view'):
+                    for f in ('func', 'view', 'view-noctx'):
                         out.append({'kind': 'retention', 'dispatcher': d, 'validator': v, 'flavour': f, 'n': n,
-                                    'requests': ['ok', 'raises-exc', 'does-not-validate', 'batch', 'notification']})
+                                    'requests': ['ok', 'raises-exc', 'does-not-validate', 'batch', 'notification', 'ping-no-params', 'noctx', 'ping-empty-list']})
         return out
 
     def enum_shards(self, tier: str) -> int:
@@ -279,10 +326,15 @@ class C13(Check):
             ctx = Ctx()
             ctx_refs.append(weakref.ref(ctx))
             try:
-                hm.run_dispatch(kind, d, text, ctx)
+                r = hm.run_dispatch(kind, d, text, ctx)
             except Exception as e:
                 return Outcome([Disc(f"C13/retention/dispatch-raised/{type(e).__name__}", f"{e!r} for {text!r} validator={spec['validator']}")], True, ['retention/crash'])
             del ctx
+            want = {'noctx': 'plain', 'ping-no-params': 'pong', 'ping-empty-list': 'pong', 'ok': 1, 'ok-positional': 2}.get(name)
+            if want is not None and (r is None or json.loads(r[0]).get('result') != want):
+                return Outcome([Disc("C13/retention/response-depends-on-earlier-requests",
+                                     f"request #{i} {name}: {r!r} expected result {want!r} | validator={spec['validator']} flavour={spec['flavour']} dispatcher={kind} requests={reqs}")],
+                               True, ['retention/wrong-response'])
         gc.collect()
         alive_ctx = sum(1 for r in ctx_refs if r() is not None)
         alive_views = sum(1 for r in VIEW_REFS if r() is not None)
